@@ -1,0 +1,36 @@
+//! Verification hooks (only compiled with `--cfg simple_dns_verif`).
+//!
+//! Read-only entry points and a thread-local work counter used by the
+//! conformance harness in /verif. Nothing here changes library behaviour.
+
+use std::cell::Cell;
+
+use super::{Name, WireFormat};
+
+thread_local! {
+    static STEPS: Cell<u64> = const { Cell::new(0) };
+}
+
+/// Count one unit of parsing work (one iteration of a parsing loop) on the calling thread.
+#[inline]
+pub fn step() {
+    STEPS.with(|s| s.set(s.get().wrapping_add(1)));
+}
+
+/// Reset the calling thread's work counter to zero.
+pub fn reset_steps() {
+    STEPS.with(|s| s.set(0));
+}
+
+/// Read the calling thread's work counter.
+pub fn steps() -> u64 {
+    STEPS.with(|s| s.get())
+}
+
+/// Decode one domain name starting at `at` in `buf`, returning the name and the
+/// cursor position at which parsing of the enclosing element would resume.
+pub fn parse_name(buf: &[u8], at: usize) -> crate::Result<(Name<'_>, usize)> {
+    let mut position = at;
+    let name = Name::parse(buf, &mut position)?;
+    Ok((name, position))
+}
